@@ -37,6 +37,8 @@ def run_case(case):
     from sparseSpACE.Grid import TrapezoidalGrid
     from sparseSpACE.Function import CustomFunction
     c = case["config"]
+    if c.get("kind") == "reuse":
+        return _reuse_case(c)
     d, lmin, lmax, boundary = c["d"], c["lmin"], c["lmax"], c["boundary"]
     a, b = np.array(c["a"], dtype=float), np.array(c["b"], dtype=float)
     key = {"boundary": boundary}
@@ -142,6 +144,47 @@ def run_case(case):
             "evals": 1 + N + nB}
 
 
+def _reuse_case(c):
+    """ONE StandardCombi object performs the operation for a sequence of (lmin,lmax) pairs; after each one the scheme, the
+    result and the interpolant must equal those of a fresh object"""
+    from sparseSpACE.StandardCombi import StandardCombi
+    from sparseSpACE.GridOperation import Integration
+    from sparseSpACE.Grid import TrapezoidalGrid
+    from sparseSpACE.Function import CustomFunction
+    d, boundary = c["d"], c["boundary"]
+    a, b = np.array(c["a"], dtype=float), np.array(c["b"], dtype=float)
+    key = {"boundary": boundary, "oracle_kind": "object_reuse"}
+    fails = []
+    comps = lambda x: [float(np.sin(2.0 * x[0] + 0.3) * np.exp(0.5 * x[-1])), float(np.prod([xx * xx + 0.1 for xx in x]))]
+
+    def make():
+        grid = TrapezoidalGrid(a, b, boundary=boundary)
+        op = Integration(CustomFunction(comps, output_length=2), grid=grid, dim=d)
+        return StandardCombi(a, b, operation=op, print_output=False, print_level=1000, log_level=1000)
+    lat = [tuple(a[k] + t * (b[k] - a[k]) for k, t in enumerate(p)) for p in itertools.product(LATTICE_1D, repeat=d)]
+    shared = make()
+    for step, (lmin, lmax) in enumerate(c["sequence"]):
+        sch1, _, res1 = shared.perform_operation(lmin, lmax)
+        fresh = make()
+        sch2, _, res2 = fresh.perform_operation(lmin, lmax)
+        s1 = sorted((tuple(int(x) for x in g.levelvector), float(g.coefficient)) for g in sch1)
+        s2 = sorted((tuple(int(x) for x in g.levelvector), float(g.coefficient)) for g in sch2)
+        if s1 != s2:
+            fails.append(fail("reused_object_scheme", "step %d (%d,%d) after %r: scheme %r, fresh object %r" % (step, lmin, lmax, c["sequence"][:step], s1[:4], s2[:4]), key))
+            break
+        if not np.allclose(np.asarray(res1, dtype=float), np.asarray(res2, dtype=float), rtol=1e-13, atol=1e-15):
+            fails.append(fail("reused_object_result", "step %d (%d,%d): %r vs fresh %r" % (step, lmin, lmax, res1, res2), key))
+            break
+        v1, v2 = np.asarray(shared(lat)), np.asarray(fresh(lat))
+        if not np.allclose(v1, v2, rtol=1e-13, atol=1e-15):
+            fails.append(fail("reused_object_interpolant", "step %d (%d,%d): max difference %r" % (step, lmin, lmax, float(np.max(np.abs(v1 - v2)))), key))
+            break
+        if shared.get_total_num_points() != fresh.get_total_num_points():
+            fails.append(fail("reused_object_point_count", "step %d (%d,%d): %r vs fresh %r" % (step, lmin, lmax, shared.get_total_num_points(), fresh.get_total_num_points()), key))
+            break
+    return {"failures": fails, "canon": core.config_key(c), "outcome": (len(c["sequence"]), len(fails)), "nontrivial": True, "evals": len(c["sequence"])}
+
+
 def cases(tier):
     out = []
     # the last boxes of d=2,3 are chosen so that a bound of one dimension coincides with an interior dyadic coordinate of another
@@ -158,6 +201,17 @@ def cases(tier):
                         continue
                     for boundary in (True, False):
                         out.append({"config": {"d": d, "lmin": lmin, "lmax": lmax, "a": a, "b": b, "boundary": boundary}})
+    # object reuse: every ordered pair (and some triples) of level ranges on ONE StandardCombi object
+    pairs = [(1, 1), (1, 2), (1, 3), (2, 3), (2, 4), (3, 3), (3, 4)]
+    for d, box in ((2, ([-1.0, 0.5], [2.0, 3.0])), (1, ([0.0], [1.0])), (3, ([0.0] * 3, [1.0] * 3))):
+        menu = [p for p in pairs if (d < 3 or p[1] <= 3)]
+        for boundary in (True, False):
+            for seq in itertools.product(menu, repeat=2):
+                out.append({"config": {"kind": "reuse", "d": d, "a": box[0], "b": box[1], "boundary": boundary, "sequence": [list(x) for x in seq]}})
+            if d == 2:
+                for seq in itertools.product(menu[:5], repeat=3):
+                    if tier != "quick" or boundary:
+                        out.append({"config": {"kind": "reuse", "d": d, "a": box[0], "b": box[1], "boundary": boundary, "sequence": [list(x) for x in seq]}})
     if tier != "quick":
         for lmin in range(1, 5):
             out.append({"config": {"d": 2, "lmin": lmin, "lmax": 5, "a": [0.0, 0.0], "b": [1.0, 1.0], "boundary": True}})
@@ -171,13 +225,14 @@ def cases(tier):
 
 def main(ctx):
     cs = cases(ctx.tier)
-    ctx.determinism_probe(cs[len(cs) // 2])
+    ctx.determinism_probe(cs[20])
     results = ctx.map(cs, chunksize=1)
     for case, res in zip(cs, results):
-        ctx.absorb(case, res, group="d%d_bnd%d" % (case["config"]["d"], case["config"]["boundary"]))
-    for i in (1, len(cs) // 2, len(cs) - 1):
-        ctx.add_sample({"case": cs[i], "sparse_grid_points_hats_components": results[i]["outcome"]})
-    ctx.bounds = {"configurations": len(cs), "max_sparse_grid_points": max(r["outcome"][0] for r in results)}
+        ctx.absorb(case, res, group=("reuse_" if case["config"].get("kind") == "reuse" else "") + "d%d_bnd%d" % (case["config"]["d"], case["config"]["boundary"]))
+    for i in (1, len(cs) // 3, len(cs) - 1):
+        ctx.add_sample({"case": cs[i], "outcome": results[i]["outcome"]})
+    ctx.bounds = {"configurations": sum(1 for c in cs if c["config"].get("kind") != "reuse"), "object_reuse_sequences": sum(1 for c in cs if c["config"].get("kind") == "reuse"),
+                  "max_sparse_grid_points": max(r["outcome"][0] for c, r in zip(cs, results) if c["config"].get("kind") != "reuse")}
     return ctx.finish(
         rule="complete lattice d x (1<=lmin<=lmax<=L_d) x box x boundary; per configuration ALL nodal unit functions and ALL "
              "hierarchical hats of the sparse-grid space are carried as components of vector-valued functions (evaluations = number of "
